@@ -36,11 +36,11 @@ Proof.
 Qed.
 
 Lemma C05_full_builder_proof : forall nodes root t init lit fuel r,
-  tree_of nodes root = Some t -> ~ Known_C05_K1 init t -> ~ Known_C05_K2 t ->
+  tree_of nodes root = Some t -> ~ Known_C05_K2 t ->
   build nodes init lit fuel root = Ok r -> wf_code nodes init (code_of_build r).
 Proof.
-  intros nodes root t init lit fuel r Ht H1 H2 Hb.
-  exact (C05_full_proof nodes root t init lit _ Ht H1 H2 (compile_agrees_full_proof _ _ _ _ _ _ _ Ht Hb)).
+  intros nodes root t init lit fuel r Ht H2 Hb.
+  exact (C05_full_proof nodes root t init lit _ Ht H2 (compile_agrees_full_proof _ _ _ _ _ _ _ Ht Hb)).
 Qed.
 
 Lemma C05_operands_meta_builder_proof : forall nodes root t init lit fuel r,
@@ -62,11 +62,11 @@ Proof.
 Qed.
 
 Lemma C20_frame_full_builder_proof : forall nodes root t init lit fuel r,
-  tree_of nodes root = Some t -> ~ Known_C05_K1 init t -> ~ Known_C05_K2 t ->
+  tree_of nodes root = Some t -> ~ Known_C05_K2 t ->
   build nodes init lit fuel root = Ok r -> own_code init (code_of_build r) = true.
 Proof.
-  intros nodes root t init lit fuel r Ht H1 H2 Hb.
-  exact (C20_frame_full_proof nodes root t init lit _ Ht H1 H2 (compile_agrees_full_proof _ _ _ _ _ _ _ Ht Hb)).
+  intros nodes root t init lit fuel r Ht H2 Hb.
+  exact (C20_frame_full_proof nodes root t init lit _ Ht H2 (compile_agrees_full_proof _ _ _ _ _ _ _ Ht Hb)).
 Qed.
 
 Lemma C20_own_jump_refs_builder_proof : forall nodes root t init lit fuel r,
@@ -79,12 +79,12 @@ Proof.
 Qed.
 
 Lemma C20_relocated_full_builder_proof : forall nodes root t init lit fuel fuel0 r r0,
-  tree_of nodes root = Some t -> ~ Known_C05_K1 init t -> ~ Known_C05_K2 t ->
+  tree_of nodes root = Some t -> ~ Known_C05_K2 t ->
   build nodes init lit fuel root = Ok r -> build nodes empty_init lit fuel0 root = Ok r0 ->
   relocated init (code_of_build r0) (code_of_build r) = true.
 Proof.
-  intros nodes root t init lit fuel fuel0 r r0 Ht H1 H2 Hb Hb0.
-  exact (C20_relocated_full_proof nodes root t init lit _ _ Ht H1 H2
+  intros nodes root t init lit fuel fuel0 r r0 Ht H2 Hb Hb0.
+  exact (C20_relocated_full_proof nodes root t init lit _ _ Ht H2
            (compile_agrees_full_proof _ _ _ _ _ _ _ Ht Hb) (compile_agrees_full_proof _ _ _ _ _ _ _ Ht Hb0)).
 Qed.
 
@@ -109,11 +109,11 @@ Qed.
 Lemma C05_full_parsed_proof : forall toks root nodes,
   parse toks = Ok (root, nodes) -> nodes <> [] ->
   exists t, tree_of nodes root = Some t /\
-    forall init lit fuel r, ~ Known_C05_K1 init t -> ~ Known_C05_K2 t ->
+    forall init lit fuel r, ~ Known_C05_K2 t ->
       build nodes init lit fuel root = Ok r -> wf_code nodes init (code_of_build r).
 Proof.
   intros toks root nodes Hp Hne. destruct (parse_tree_of _ _ _ Hp) as [E|[t Ht]]; [contradiction|].
-  exists t. split; [exact Ht|]. intros init lit fuel r H1 H2 Hb. exact (C05_full_builder_proof _ _ _ _ _ _ _ Ht H1 H2 Hb).
+  exists t. split; [exact Ht|]. intros init lit fuel r H2 Hb. exact (C05_full_builder_proof _ _ _ _ _ _ _ Ht H2 Hb).
 Qed.
 
 Lemma C06_static_full_parsed_proof : forall toks root nodes,
@@ -130,14 +130,14 @@ Qed.
 Lemma C20_relocated_full_parsed_proof : forall toks root nodes,
   parse toks = Ok (root, nodes) -> nodes <> [] ->
   exists t, tree_of nodes root = Some t /\
-    forall init lit fuel fuel0 r r0, ~ Known_C05_K1 init t -> ~ Known_C05_K2 t ->
+    forall init lit fuel fuel0 r r0, ~ Known_C05_K2 t ->
       build nodes init lit fuel root = Ok r -> build nodes empty_init lit fuel0 root = Ok r0 ->
       relocated init (code_of_build r0) (code_of_build r) = true /\ own_code init (code_of_build r) = true.
 Proof.
   intros toks root nodes Hp Hne. destruct (parse_tree_of _ _ _ Hp) as [E|[t Ht]]; [contradiction|].
-  exists t. split; [exact Ht|]. intros init lit fuel fuel0 r r0 H1 H2 Hb Hb0. split.
-  - exact (C20_relocated_full_builder_proof _ _ _ _ _ _ _ _ _ Ht H1 H2 Hb Hb0).
-  - exact (C20_frame_full_builder_proof _ _ _ _ _ _ _ Ht H1 H2 Hb).
+  exists t. split; [exact Ht|]. intros init lit fuel fuel0 r r0 H2 Hb Hb0. split.
+  - exact (C20_relocated_full_builder_proof _ _ _ _ _ _ _ _ _ Ht H2 Hb Hb0).
+  - exact (C20_frame_full_builder_proof _ _ _ _ _ _ _ Ht H2 Hb).
 Qed.
 
 Lemma C20_no_foreign_jump_builder_proof : forall nodes init lit fuel root,
